@@ -60,7 +60,18 @@ KROME_SPELL = {
     "fortran-ops": (lambda v: f".GE.{v:g}", lambda v: f".LE.{v:g}"),
     "d-exponent": (lambda v: dexp(v), lambda v: dexp(v)),
     "fortran-ops-d": (lambda v: ".GT." + dexp(v), lambda v: ".LT." + dexp(v)),
+    # Fortran allows a number to start with its decimal point
+    "leading-point": (lambda v: pointform(v), lambda v: pointform(v)),
+    "ops-leading-point": (lambda v: ">" + pointform(v), lambda v: ".LE." + pointform(v)),
 }
+
+
+def pointform(v):
+    """v written as .ddd d<exp> (mantissa in [0.1, 1)); falls back to the plain spelling when that is not exact"""
+    m, e = f"{float(v):.6e}".split("e")
+    digits = m.replace(".", "").rstrip("0") or "0"
+    txt = f".{digits}d{int(e) + 1}"
+    return txt if float(txt.replace("d", "e")) == float(v) else f"{v:g}"
 
 
 def dexp(v):
